@@ -39,10 +39,11 @@ import (
 	"strings"
 )
 
-const version = "vinstr-9"
+const version = "vinstr-10"
 
 var (
 	repo    = flag.String("repo", "/repo", "repository root")
+	src     = flag.String("src", "", "tree to read instead of -repo (testing a scratch copy): files are read there and overlaid onto -repo's paths")
 	out     = flag.String("out", "", "output directory")
 	extra   = flag.String("extra", "", "directory tree of static overlay files (relative paths mirror the repo)")
 	noinstr = flag.Bool("noinstr", false, "only emit the static overlay files (engine B builds)")
@@ -72,9 +73,13 @@ func main() {
 	if *extra != "" {
 		*extra, _ = filepath.Abs(*extra)
 	}
+	if *src == "" {
+		*src = *repo
+	}
+	*src, _ = filepath.Abs(*src)
 	pkgs := []pkgJob{
-		{dir: filepath.Join(*repo, "varlink/internal/ctxio"), path: "github.com/varlink/go/varlink/internal/ctxio"},
-		{dir: filepath.Join(*repo, "varlink"), path: "github.com/varlink/go/varlink"},
+		{dir: filepath.Join(*src, "varlink/internal/ctxio"), path: "github.com/varlink/go/varlink/internal/ctxio"},
+		{dir: filepath.Join(*src, "varlink"), path: "github.com/varlink/go/varlink"},
 	}
 	h := sha256.New()
 	h.Write([]byte(version))
@@ -121,10 +126,24 @@ func main() {
 		rel, _ := filepath.Rel(*extra, e)
 		overlay[filepath.Join(*repo, rel)] = e
 	}
+	if *src != *repo {
+		// a scratch copy is checked: every Go file of the library and the generator is overlaid onto /repo's path
+		for _, sub := range []string{"varlink", "cmd/varlink-go-interface-generator"} {
+			filepath.Walk(filepath.Join(*src, sub), func(p string, fi os.FileInfo, err error) error {
+				if err == nil && !fi.IsDir() && strings.HasSuffix(p, ".go") && !strings.HasSuffix(p, "_test.go") {
+					rel, _ := filepath.Rel(*src, p)
+					if _, ok := overlay[filepath.Join(*repo, rel)]; !ok {
+						overlay[filepath.Join(*repo, rel)] = p
+					}
+				}
+				return nil
+			})
+		}
+	}
 	if !*noinstr {
 		fset := token.NewFileSet()
 		cwd, _ := os.Getwd()
-		os.Chdir(*repo)
+		os.Chdir(*src)
 		imp := importer.ForCompiler(fset, "source", nil)
 		for _, pj := range pkgs {
 			instrumentPackage(fset, imp, pj, overlay)
@@ -201,6 +220,10 @@ func instrumentPackage(fset *token.FileSet, imp types.Importer, pj pkgJob, overl
 				}
 			}
 		}
+		if reset := globalResetInit(af); reset != nil {
+			af.Decls = append(af.Decls, reset)
+			r.used = true
+		}
 		changedImport := false
 		for _, is := range af.Imports {
 			p, _ := strconv.Unquote(is.Path.Value)
@@ -230,13 +253,13 @@ func instrumentPackage(fset *token.FileSet, imp types.Importer, pj pkgJob, overl
 		if err := format.Node(&buf, fset, af); err != nil {
 			fatal(2, "vinstr: print %s: %v", pj.files[i], err)
 		}
-		rel, _ := filepath.Rel(*repo, pj.files[i])
+		rel, _ := filepath.Rel(*src, pj.files[i])
 		dst := filepath.Join(*out, strings.ReplaceAll(rel, "/", "__"))
 		hdr := fmt.Sprintf("// Code generated by %s from %s; DO NOT EDIT.\n\n", version, pj.files[i])
 		if err := os.WriteFile(dst, append([]byte(hdr), buf.Bytes()...), 0o644); err != nil {
 			fatal(2, "vinstr: %v", err)
 		}
-		overlay[pj.files[i]] = dst
+		overlay[filepath.Join(*repo, rel)] = dst
 	}
 	var wl []string
 	for k := range written {
@@ -244,6 +267,65 @@ func instrumentPackage(fset *token.FileSet, imp types.Importer, pj pkgJob, overl
 	}
 	sort.Strings(wl)
 	os.WriteFile(filepath.Join(*out, "tracked-"+pkg.Name()+".txt"), []byte(strings.Join(wl, "\n")+"\n"), 0o644)
+}
+
+// globalResetInit builds, for a file that declares package-level variables, the declaration
+//
+//	func init() { vsched.RegisterGlobalReset(func() { v = <its initialiser>; w = *new(T); ... }) }
+//
+// so that the explorer can put package-level state back to its initial value before every execution
+// (a stateless explorer assumes that all executions start from the same state).
+func globalResetInit(af *ast.File) *ast.FuncDecl {
+	var body []ast.Stmt
+	for _, d := range af.Decls {
+		gd, ok := d.(*ast.GenDecl)
+		if !ok || gd.Tok != token.VAR {
+			continue
+		}
+		for _, sp := range gd.Specs {
+			vs := sp.(*ast.ValueSpec)
+			allBlank := true
+			for _, n := range vs.Names {
+				if n.Name != "_" {
+					allBlank = false
+				}
+			}
+			if allBlank {
+				continue
+			}
+			switch {
+			case len(vs.Values) == len(vs.Names):
+				for i, n := range vs.Names {
+					if n.Name == "_" {
+						continue
+					}
+					body = append(body, &ast.AssignStmt{Lhs: []ast.Expr{ident(n.Name)}, Tok: token.ASSIGN, Rhs: []ast.Expr{vs.Values[i]}})
+				}
+			case len(vs.Values) == 1: // a, b = f()
+				var lhs []ast.Expr
+				for _, n := range vs.Names {
+					lhs = append(lhs, ident(n.Name))
+				}
+				body = append(body, &ast.AssignStmt{Lhs: lhs, Tok: token.ASSIGN, Rhs: []ast.Expr{vs.Values[0]}})
+			case len(vs.Values) == 0 && vs.Type != nil:
+				for _, n := range vs.Names {
+					if n.Name == "_" {
+						continue
+					}
+					zero := &ast.StarExpr{X: &ast.CallExpr{Fun: ident("new"), Args: []ast.Expr{vs.Type}}}
+					body = append(body, &ast.AssignStmt{Lhs: []ast.Expr{ident(n.Name)}, Tok: token.ASSIGN, Rhs: []ast.Expr{zero}})
+				}
+			}
+		}
+	}
+	if len(body) == 0 {
+		return nil
+	}
+	reg := &ast.ExprStmt{X: &ast.CallExpr{
+		Fun:  &ast.SelectorExpr{X: ident("vsched"), Sel: ident("RegisterGlobalReset")},
+		Args: []ast.Expr{&ast.FuncLit{Type: &ast.FuncType{Params: &ast.FieldList{}}, Body: &ast.BlockStmt{List: body}}},
+	}}
+	return &ast.FuncDecl{Name: ident("init"), Type: &ast.FuncType{Params: &ast.FieldList{}}, Body: &ast.BlockStmt{List: []ast.Stmt{reg}}}
 }
 
 // listenHook makes the package's listen(ctx, network, address) consult vsched.ListenHook first, so that
